@@ -198,13 +198,16 @@ class Inc:
         self.state = "writing"   # writing / appending / closed / aborted / updating / publishing / superseded
         self.splice = None       # superseded entry: last slice of the replaced prefix
         self.dead = False        # its slices were given back (or it never had a key: nothing to give back)
+        self.must = None         # snapshot of expected_free() taken when the first of its slices is given back
 
     def expected_free(self):
         """the slices that freeing this entry must return to the pool"""
         if self.key is None:
             return []            # empty() entry: freeChain() does not walk the chain (quirk, see corpus)
         if self.splice is not None:
-            return self.chain[:self.chain.index(self.splice) + 1] if self.splice in self.chain else None
+            if self.splice in self.chain:
+                return self.chain[:self.chain.index(self.splice) + 1]
+            return [] if self.must is not None else None
         return list(self.chain)
 
 
@@ -248,6 +251,8 @@ def oracle(case, out):
         fresh = [None] * n         # U: the fresh anchor
         ussp = [None] * n          # U: stale.splicingPoint
         fname = [None] * n         # U: fresh.name
+        sinc = [None] * n          # U: the incarnation being updated (stale) ...
+        finc = [None] * n          # ... and the one being created (fresh)
         epoch = [0] * nmap         # per name: bumped when a relocation of the name starts and when it is over
         holding = [False] * n      # between the return of the opening call and the use step of the releasing call
         cur = [None] * nmap        # current incarnation of each anchor (Inc) or None
@@ -266,11 +271,12 @@ def oracle(case, out):
             """anchor f is being recycled by the opener of event e: its old entry must have given back its slices"""
             if old is None or old.dead:
                 return None
-            need = old.expected_free()
+            need = old.must if old.must is not None else old.expected_free()
             if need:
                 # ... possibly by an operation of another thread that has freed the chain but has not returned yet
                 for u in range(n):
-                    if not settled[u] and sorted(opfrees[u]) == sorted(need):
+                    if not settled[u] and opfrees[u] and sorted(sid for sid, _ in opfrees[u]) == sorted(need) \
+                       and all(old in xs for _, xs in opfrees[u]):
                         settled[u] = True
                         old.dead = True
                         return None
@@ -298,14 +304,15 @@ def oracle(case, out):
                 return None
             if not fr:
                 return None
-            cands = [x for x in incs if not x.dead and x.expected_free() is not None and sorted(x.expected_free()) == sorted(fr)
-                     and (target is None or x.anchor == target)]
+            sids = sorted(sid for sid, _ in fr)
+            cands = [x for x in incs if not x.dead and x.must is not None and sorted(x.must) == sids
+                     and all(x in xs for _, xs in fr) and (target is None or x.anchor == target)]
             if not cands:
-                near = [x for x in incs if not x.dead and set(fr) & set(x.chain)]
+                near = [x for x in incs if not x.dead and any(x in xs for _, xs in fr)]
                 return ("oracle:free-set-mismatch",
                         "operation %s gave back slices %s; no entry%s has exactly these slices to give back (entries touched: %s)"
-                        % (e, fr, "" if target is None else " at anchor %d" % target,
-                           ["anchor %d #%d %s chain=%s splice=%s must-free=%s" % (x.anchor, x.no, x.state, x.chain, x.splice, x.expected_free()) for x in near]))
+                        % (e, sids, "" if target is None else " at anchor %d" % target,
+                           ["anchor %d #%d %s chain=%s splice=%s must-free=%s" % (x.anchor, x.no, x.state, x.chain, x.splice, x.must) for x in near]))
             x = cands[0]
             x.dead = True
             return None
@@ -324,7 +331,7 @@ def oracle(case, out):
                     holding[t] = False
                 if i in publish_at:
                     # closeForUpdating starts: from now on the fresh anchor is the entry: fresh prefix ++ old suffix
-                    st, fr = cur[held[t]], cur[fresh[t]]
+                    st, fr = sinc[t], finc[t]
                     if ussp[t] not in st.chain:
                         return ("oracle:harness-protocol", "splicing point %s is not in the stale chain %s" % (ussp[t], st.chain))
                     fr.chain = fr.chain + st.chain[st.chain.index(ussp[t]) + 1:]
@@ -346,7 +353,7 @@ def oracle(case, out):
                         continue
                     for u in range(n):
                         if holding[u] and held[u] == f and mode[u] in "RU":
-                            if x.splice is not None and sid not in x.expected_free():
+                            if x.splice is not None and sid not in (x.expected_free() or []):
                                 return ("oracle:shared-suffix-freed-under-stale-reader",
                                         "slice %d (suffix shared by the updated entry and its stale version at anchor %d) was freed by thread %d "
                                         "while thread %d still holds the stale version open for reading" % (sid, f, t, u))
@@ -355,10 +362,14 @@ def oracle(case, out):
                         if u != t and holding[u] and ((held[u] == f and mode[u] in "WA") or (fresh[u] == f and mode[u] == "U")):
                             return ("oracle:slice-freed-under-writer",
                                     "slice %d of entry %d was freed by thread %d while thread %d holds the entry open for writing" % (sid, f, t, u))
+                mine = []
                 for x in own:
-                    if x.splice is not None and x.expected_free() is not None and sid not in x.expected_free():
-                        x.chain.remove(sid)      # the shared suffix goes with the updated entry; nobody reads the stale version
-                opfrees[t].append(sid)
+                    if x.must is None:
+                        x.must = list(x.expected_free() or [])
+                    if sid in x.must:
+                        mine.append(x)
+                    x.chain.remove(sid)  # (a shared suffix slice goes with the updated entry; nobody reads the stale version)
+                opfrees[t].append((sid, mine))
                 inpool.add(sid)
                 continue
             st = start_of.get(i)
@@ -495,7 +506,8 @@ def oracle(case, out):
                         return v
                     mode[t], held[t], fresh[t], holding[t], ussp[t] = "U", sf, ff, True, None
                     fname[t] = fn.index(ff) if ff in fn else None  # fresh.name: the name openKeyless() found the anchor under
-                    new_inc(ff, kc, t, "updating")
+                    sinc[t] = x
+                    finc[t] = new_inc(ff, kc, t, "updating")
                 else:
                     v = check_frees(t, e, -1)
                     if v:
@@ -504,17 +516,18 @@ def oracle(case, out):
                 ussp[t] = int(rest.split(":")[1])
             elif k == "u":
                 sf, ff = held[t], fresh[t]
-                cur[ff].state = "closed"
-                cur[sf].state = "superseded"
-                deleted[sf].append((cur[sf].no, i))
+                if finc[t].state == "publishing":
+                    finc[t].state = "closed"
+                sinc[t].state = "superseded"
+                deleted[sf].append((sinc[t].no, i))
                 fn[fname[t]] = sf                                  # relocate(fresh.name, stale.fileNo)
-                epoch[keyname(cur[ff].key, nmap)] += 1
+                epoch[keyname(finc[t].key, nmap)] += 1
                 mode[t], held[t], fresh[t] = "I", None, None
             elif k == "x":
                 v = check_frees(t, e, fresh[t])
                 if v:
                     return v
-                x = cur[fresh[t]]
+                x = finc[t]
                 x.state = "aborted"
                 if not x.dead and x.expected_free():
                     return ("oracle:slice-leak", "abortUpdating did not give back the fresh prefix %s" % x.expected_free())
